@@ -984,6 +984,10 @@ func (e *SpecEnv) evalCall(x *SX) (*SV, error) {
 				conj = append(conj, Eq(Select(sc, Add(sls[2].Off, IntC(int64(i)))), Select(mac, IntC(int64(i)))))
 			}
 			return &SV{V: And(conj...), T: types.Typ[types.Bool]}, nil
+		case "sentTotal":
+			// sentTotal(): number of values placed on any channel so far (ghost)
+			ki := e.vc.reg.get("ghost:sentTotal", 0, IntSort, nil)
+			return &SV{V: e.st.heapVar(ki), T: types.Typ[types.Int]}, nil
 		case "now":
 			// now(): the ghost clock (nanoseconds), i.e. the value of the latest time.Now() in the evaluation state
 			ki := e.vc.reg.get("ghost:clock", 0, IntSort, nil)
